@@ -873,7 +873,7 @@ fn main() {
         engine: "E4-enum".into(),
         states: total_inst as u64,
         transitions: ld(&counters.recon_calls),
-        evaluations: ld(&counters.recon_evals) * 3,
+        evaluations: ld(&counters.recon_calls),
         distinct_nontrivial: (0..ntypes).map(|k| (0..reg[k].count()).filter(|i| reg[k].compact(*i).contains('(')).count() as u64).sum(),
         rule: "every instance printed with print_recon / print_recon_compact / print_recon_pretty and read back with parse_recognize::<T>; non-trivial = printed form has an attribute with a body".into(),
         samples: vec![sample_inst(15), sample_inst(30)],
